@@ -4,6 +4,25 @@
 # property's check against it, and on success stores it under /verif/seeded/<name>/.
 set -u
 export GOFLAGS=-mod=mod GOPROXY=off GOSUMDB=off GOTOOLCHAIN=local GOWORK=off
+if [ "$1" = "--recheck" ]; then
+  # re-run only the check against an already confirmed seed and refresh meta.json's detection fields
+  prop="$2"; name="$3"; d=/verif/seeded/$name
+  wt=/tmp/wt/recheck-$name; rm -rf "$wt"; git -C /repo worktree prune
+  git -C /repo worktree add -q --detach "$wt" HEAD || exit 9
+  trap 'git -C /repo worktree remove --force "$wt" 2>/dev/null; rm -rf "$wt"' EXIT
+  (cd "$wt" && git apply "$d/patch.diff") || { echo "patch does not apply to current HEAD"; exit 7; }
+  (cd "$wt" && go build ./... 2>&1 | grep -v 'ld:\|^#' | head -3)
+  /verif/bin/verifchk -prop "$prop" -tier quick -repo "$wt" -verif /verif -no-evidence > "$wt/.check.log" 2>&1; rcq=$?
+  grep -E 'VIOLATED|UNDECIDED|BROKEN' "$wt/.check.log" | cut -c1-300 | head -4
+  rules=$(grep -oE 'rule=[A-Z0-9-]+' "$wt/.check.log" | sort -u | paste -sd, )
+  python3 - "$d" "$rcq" "$rules" <<'PY'
+import json,sys
+d,rc,rules=sys.argv[1:4]
+m=json.load(open(d+"/meta.json")); m["detected_by_check"]=(rc=="1"); m["reporting_rules"]=rules
+json.dump(m,open(d+"/meta.json","w"),indent=1)
+PY
+  echo "RECHECK name=$name check_rc=$rcq rules=$rules"; exit 0
+fi
 prop="$1"; src="$2"; name="$3"
 wt=/tmp/wt/confirm-$name
 rm -rf "$wt"; git -C /repo worktree prune
@@ -12,7 +31,7 @@ trap 'git -C /repo worktree remove --force "$wt" 2>/dev/null; rm -rf "$wt"' EXIT
 demo_rel=$(grep -oE '[A-Za-z0-9_./-]+_test\.go' "$src/demo_path.txt" | grep -v '^out/' | head -1)
 demo_src=$(ls "$src"/*_test.go 2>/dev/null | head -1)
 [ -z "$demo_rel" ] && { echo "no demo path"; exit 8; }
-run_demo() { (cd "$wt" && cp "$demo_src" "$demo_rel" && pkg=./$(dirname "$demo_rel") && tn=$(grep -oE '^func (Test[A-Za-z0-9_]+)' "$demo_src" | awk '{print $2}' | paste -sd'|') && extra="" && grep -q -- '-race' "$src/demo_path.txt" && extra="-race"; go test $extra -vet=off -count=1 -run "^($tn)\$" "$pkg" >"$wt/.demo.log" 2>&1; rc=$?; rm -f "$demo_rel"; return $rc); }
+run_demo() { (cd "$wt" && cp "$demo_src" "$demo_rel" && pkg=./$(dirname "$demo_rel") && tn=$(grep -oE '^func (Test[A-Za-z0-9_]+)' "$demo_src" | awk '{print $2}' | paste -sd'|') && extra=""; grep -q -- '-race' "$src/demo_path.txt" && extra="-race"; tag=$(grep -oE '^//go:build [a-z0-9_]+' "$demo_src" | awk '{print $2}' | head -1); [ -n "$tag" ] && extra="$extra -tags $tag"; go test $extra -vet=off -count=1 -run "^($tn)\$" "$pkg" >"$wt/.demo.log" 2>&1; rc=$?; rm -f "$demo_rel"; return $rc); }
 echo "== demo on unchanged tree (must pass)"; run_demo; r0=$?; tail -3 "$wt/.demo.log" | grep -v 'ld:'
 (cd "$wt" && git apply "$src/patch.diff") || { echo "patch does not apply"; exit 7; }
 echo "== build"; (cd "$wt" && go build ./... 2>&1 | grep -v 'ld:\|^#' | head -5)
